@@ -128,7 +128,10 @@ PROPS = {
                 "sequences; GENERATED schema pairs: a random schema tree and the same tree after one structural edit (hoist the last leaf of a sub-document behind it, sink, rename, "
                 "swap, wrap, unwrap, retype, add, remove, metric -> non-metric) in alternating patterns through the schema-aware collectors. Oracle: schema-aware collectors accept everything and decode to the input; others never store a sample under another metric "
                 "count/type; chunk boundaries only at change points and capacity. Distinct = distinct history line.",
-        "level_text": "Theorems (Props/C08.lean): schema_key_injective — equal hash input implies equal lists of full metric keys for all documents with C-string "
+        "level_text": "Theorems (Props/C08.lean): streaming_dynamic_chunk_boundaries and dynamic_chunk_boundaries - for ANY sequence of runs of documents (one schema inside a run, "
+                      "consecutive runs with different schema keys) and every chunk size, the chunks written plus the pending one (resp. the batch collectors' Resolve output) are, run by "
+                      "run, each run cut exactly at capacity: a new chunk at each change point and otherwise only at capacity, nothing lost or reordered (C01's ..._any_schemas theorems "
+                      "add that every such chunk decodes to exactly its documents). schema_key_injective — equal hash input implies equal lists of full metric keys for all documents with C-string "
                       "keys (the lemma the schema-aware collectors rest on; FNV is external); unseparated_keys_collide — the witness that the unrepaired hash input "
                       "was not injective (F10); one-step laws of the dynamic collector (same schema continues, change splits + is accepted + updates the schema, F8); "
                       "non-schema-aware collectors refuse a differing metric count/types and stay unchanged; stored rows have the chunk's width; "
@@ -137,9 +140,9 @@ PROPS = {
                       "have the collector's current key (ghost invariant G over all histories); dynamic_batches_have_one_schema - the same for the (non-streaming) dynamic collector: batch i "
                       "holds exactly the value rows of a list of documents that all have one hash input, and the batches concatenated are exactly the accepted documents, once each "
                       "and in order (ghost invariant GD).",
-        "level_note": "FNV-64 collisions are outside the model (hash input is compared). That a schema change always STARTS a new chunk (rather than being refused) for whole "
-                      "histories of the streaming-dynamic and writer collectors, and write faults, are decided by the correspondence run (F9/F16 were found that way); Resolve/Reset "
-                      "interleaved with Adds are covered by the correspondence run.",
+        "level_note": "FNV-64 collisions are outside the model (hash input is compared). The boundary theorems exclude two different schemas with one schema key (hypothesis AdjDiff) and are about "
+                      "Add histories over a writer that accepts every write; the writer collector (NewWriterCollector = the schema-aware streaming collector behind io.Writer), write "
+                      "faults, and Resolve/Reset/Flush interleaved with Adds are decided by the correspondence run (F9/F16 were found that way).",
         "assumptions": ["keys are C strings (no NUL), no '.' and not purely numeric for the correspondence pools", "FNV-64 injective on the inputs hashed"],
     },
     "C09": {
